@@ -160,15 +160,19 @@ def script_of(kinds):
 class AssemblyOb(TemplateObligation):
     budget = 4
 
-    def __init__(self, kinds, dialect="ansi", tsql_mode=False, same_text=False):
+    def __init__(self, kinds, dialect="ansi", tsql_mode=False, same_text=False, go=()):
         self.kinds, self.dialect, self.tsql_mode, self.same_text = list(kinds), dialect, tsql_mode, same_text
         self.stmts = script_of(kinds)
         if same_text:
             self.stmts = [self.stmts[0]] + self.stmts[:1] + self.stmts[1:]
-        self.key = "%s/%s/%s%s" % ("tsql-no-semicolon" if tsql_mode else "assembly", dialect, "+".join(kinds), "/same-text" if same_text else "")
+        # T-SQL no-semicolon mode: statements separated by a line break, or by a GO batch separator at the positions in `go`;
+        # the repository's own statement listing walks the parse tree of the whole script (ROOT mode of the lifted runner)
+        self.seps = [("\nGO\n" if i in go else "\n") for i in range(len(self.stmts) - 1)] if tsql_mode else None
+        self.key = "%s/%s/%s%s%s" % ("tsql-no-semicolon" if tsql_mode else "assembly", dialect, "+".join(kinds), "/same-text" if same_text else "",
+                                     ("/go@" + ",".join(map(str, go))) if go else "")
 
     def prepare(self):
-        self.script = LiftedScript(self.stmts, self.dialect)
+        self.script = LiftedScript(self.stmts, self.dialect, seps=self.seps)
         self.singles = [LiftedScript([s], self.dialect) for s in self.stmts]
 
     def body(self):
@@ -206,7 +210,7 @@ class AssemblyOb(TemplateObligation):
     def concretise(self, verdict, model):
         out = super().concretise(verdict, model)
         out["stmts"] = [ps.render(out["names"]) for ps in self.script.stmts]
-        out["sql"] = ("\n" if self.tsql_mode else ";\n").join(out["stmts"])
+        out["sql"] = self.script.render_script(out["names"]) if self.tsql_mode else ";\n".join(out["stmts"])
         return out
 
     def replay(self, conc, verdict_ok):
@@ -266,6 +270,9 @@ def obligations(tier, seed):
         obs.append(AssemblyOb(ks, "ansi"))
     for ks in [("insert", "select_into"), ("select", "select_into"), ("select_into", "select_into"), ("insert", "drop", "insert"), ("select", "insert", "select_into")]:
         obs.append(AssemblyOb(ks, "tsql", tsql_mode=True))
+    for ks, go in [(("insert", "select_into"), (0,)), (("insert", "insert", "select_into"), (0,)), (("insert", "insert", "select_into"), (1,)),
+                   (("insert", "select", "insert"), (0, 1))]:
+        obs.append(AssemblyOb(ks, "tsql", tsql_mode=True, go=go))
     obs.append(AssemblyOb(("insert", "drop"), "tsql", tsql_mode=True, same_text=True))
     obs.append(AssemblyOb(("values", "drop"), "tsql", tsql_mode=True, same_text=True))
     for o in obs:
